@@ -3,7 +3,7 @@ from . import has_class
 CFG = {
     "harness": ["v1", "v2"],
     "functional": ["C11.universe", "C11.wellformed"],
-    "required_classes": ["ill-typed-package-in-three-histories", "importer-of-broken-package-requested-twice", "universe", "histories", "split-load", "incremental-load", "dependency-not-requested", "bad-requests", "broken-dependency-requested-later", "lookups-before-load", "half-parsable-package-requested-again"],
+    "required_classes": ["importer-first-then-requests-by-relative-directory", "ill-typed-package-in-three-histories", "importer-of-broken-package-requested-twice", "universe", "histories", "split-load", "incremental-load", "dependency-not-requested", "bad-requests", "broken-dependency-requested-later", "lookups-before-load", "half-parsable-package-requested-again"],
     "rule": "generated programs of 3-6 packages with an import DAG; a random non-empty request set; 5 (thorough: 24) histories per program: a random order and partition of the request set, loaded either all before the universe is made or first group -> universe -> incremental additions (v2: LoadPackages*/NewUniverse/LoadPackagesTo on a module; v1: AddDir/FindTypes/AddDirectoryTo on a scratch GOPATH); all universes must be equal and equal to the model's; objects held before an incremental load must be the ones later lookups return and completed entries must not change; reported inputs = sorted request set; requesting a missing directory, a file that does not parse and an empty directory must fail; non-trivial = input longer than 12 characters",
     "exhaustive": [],
     "modelled": "the request bookkeeping (requested vs dependency packages: full scan vs stub + reachable types), through the universe model's build; packages.Load / go/build are exercised, not modelled",
